@@ -439,6 +439,26 @@ impl Core {
         }
     }
 
+    /// Drop the instance and open the same storage through the create-or-open path.
+    pub fn reopen_create_path(&mut self, kp: u8) -> OpenResult {
+        self.hc = None;
+        self.subs.clear();
+        let d = self.disk.clone();
+        let r = catch_unwind(AssertUnwindSafe(|| {
+            block_on(async {
+                let storage = d.storage().await;
+                let b = HypercoreBuilder::new(storage);
+                let b = match kp {
+                    1 => b.key_pair(test_key_pair()),
+                    2 => b.key_pair(other_key_pair(5)),
+                    _ => b,
+                };
+                b.build().await
+            })
+        }));
+        self.take_open(r)
+    }
+
     pub fn subscribe(&mut self) {
         if let Some(hc) = &self.hc {
             self.subs.push(hc.event_subscribe());
